@@ -81,6 +81,8 @@ try:
             res["checks"][c] = {"rc": rcc, "violations": len(viol),
                                 "first": viol[0][:300] if viol else "",
                                 "clauses": sorted(set(re.findall(r"clause=(\S+)", "\n".join(viol)))),
+                                "drift": [l[:260] for l in oc.splitlines() if l.startswith("MODEL-DRIFT")][:3],
+                                "summary": ([l for l in oc.splitlines() if l.startswith("[")] or [""])[-1][:200],
                                 "tail": oc[-300:] if rcc not in (0, 1) else ""}
 finally:
     subprocess.run(f"git -C /repo worktree remove --force {wt}", shell=True, capture_output=True)
